@@ -1,3 +1,4 @@
+use std::rc::Rc;
 use uuid::Uuid;
 
 use crate::parser::token::Token;
@@ -33,10 +34,12 @@ impl StringLexError {
 ///
 /// The lexer implements the Iterator trait, so it can be used in a for loop for
 /// getting the next token.
+#[derive(Clone)]
 pub struct Lexer {
     pub source_id: Uuid,
-    /// Raw source, don't read from this directly
-    source: Vec<char>,
+    /// Raw source, don't read from this directly (shared, so that a lexer is cheap to
+    /// clone for looking ahead)
+    source: Rc<[char]>,
     /// The position that will be read next
     pos: usize,
     /// The row that will be read next
@@ -49,7 +52,7 @@ impl Lexer {
     /// Create a new lexer from a string.
     pub fn new<S: Into<String>>(source: S, id: Uuid) -> Lexer {
         Lexer {
-            source: source.into().chars().collect(),
+            source: source.into().chars().collect::<Vec<_>>().into(),
             source_id: id,
             pos: 0,
             row: 0,
